@@ -226,9 +226,10 @@ AnyOpen(args) == \E i \in 1..Len(args) : args[i].t = "open"
 \* lift a binary numeric operation: errors first (left to right), then coercion
 \* errors (left to right), then the operation
 NumBin(a, b, F(_, _)) ==
-    IF a.t = "err" THEN a
+    IF a.t = "open" THEN Open            \* an undetermined left operand may itself be an error that would win
+    ELSE IF a.t = "err" THEN a
     ELSE IF b.t = "err" THEN b
-    ELSE IF a.t = "open" \/ b.t = "open" \/ a.t = "arr" \/ b.t = "arr" THEN Open
+    ELSE IF b.t = "open" \/ a.t = "arr" \/ b.t = "arr" THEN Open
     ELSE LET x == ToNum(a)  y == ToNum(b) IN
          IF x.t = "err" THEN x
          ELSE IF y.t = "err" THEN y
@@ -256,9 +257,10 @@ OpPct(a) == IF a.t = "err" THEN a ELSE IF a.t \in {"open", "arr"} THEN Open
             ELSE LET x == ToNum(a) IN IF x.t \in {"err", "open"} THEN x ELSE RDiv(x, Whole(100))
 
 OpConcat(a, b) ==
-    IF a.t = "err" THEN a
+    IF a.t = "open" THEN Open
+    ELSE IF a.t = "err" THEN a
     ELSE IF b.t = "err" THEN b
-    ELSE IF a.t \in {"open", "arr"} \/ b.t \in {"open", "arr"} THEN Open
+    ELSE IF a.t = "arr" \/ b.t \in {"open", "arr"} THEN Open
     ELSE LET x == ToText(a)  y == ToText(b) IN
          IF x.t = "open" \/ y.t = "open" THEN Open ELSE Txt(x.v \o y.v)
 
@@ -314,7 +316,8 @@ CmpHolds(op, c) == CASE op = "="  -> c = 0  [] op = "<>" -> c # 0 [] op = "<"  -
                      [] op = ">"  -> c > 0  [] op = "<=" -> c <= 0 [] op = ">=" -> c >= 0
 
 OpCmp(op, a, b) ==
-    IF a.t = "err" THEN a
+    IF a.t = "open" THEN Open
+    ELSE IF a.t = "err" THEN a
     ELSE IF b.t = "err" THEN b
     ELSE IF ~IsScalar(a) \/ ~IsScalar(b) THEN Open
     ELSE LET c == Cmp3(a, b)
